@@ -79,7 +79,17 @@ def handle (case impl : List String) : Verdict :=
         "the surviving order draws a different pixel set than with culling off"
       let pts := chunks 2 8 (rest.map n)
       let offBand := pts.any fun p => match p with | [x, y] => !edge x y | _ => false
-      v.withSpec (n ndiff > 0 && offBand) "orders-differ-off-edge" "the two vertex orders differ away from edge pixels with culling off"
+      let v := v.withSpec (n ndiff > 0 && offBand) "orders-differ-off-edge" "the two vertex orders differ away from edge pixels with culling off"
+      -- prims.o counts triangles surviving the cull: a culled order (nothing drawn although the other
+      -- order draws) must report 0, a drawn one 1 (single visible triangle, no clipping)
+      match (secs.getD 6 []).map n with
+      | [pab, paf, pbb, pbf, pan, pbn] =>
+        let visible := (sceneTags s io).contains "visible"
+        let wrong (drawn po : Nat) := (drawn == 0 && po != 0) || (drawn > 0 && po != 1)
+        v.withSpec (visible && (wrong (n ab) pab || wrong (n af) paf || wrong (n bb) pbb || wrong (n bf) pbf
+            || wrong (n an) pan || wrong (n bn) pbn))
+          "stats-prims-out" s!"prims.o does not count the triangles surviving culling: drawn pixel counts {n ab},{n af},{n bb},{n bf},{n an},{n bn} vs prims.o {pab},{paf},{pbb},{pbf},{pan},{pbn}"
+      | _ => v
     | _ => v
 
 end Retro.Drv.C07
